@@ -523,6 +523,13 @@ ANNOT = {
 }
 
 
+# The depth clause of the property ("no recursion limit at depth 1e5"): nothing on the traversal path may recurse.  Obligation
+# <carrier>/safety/no-recursive-call-on-the-traversal-path, computed by pyvc/callgraph.py from the call graph of the modules as they are now
+# (the carrier, every repository function it refers to, nested defs, lambdas): a reachable cycle that no declared measure bounds fails it.
+# `receivers`: the one receiver on the path whose class the syntax does not show (`self.attach` of a node handle is its Tree).
+NO_RECURSION = dict(label="no-recursive-call-on-the-traversal-path", receivers={"self.attach": "swcgeom/core/tree.py:Tree"})
+
+
 def register(R: Registry):
     posts_both = ["enter-exactly-once-per-subtree-node-and-never-outside", "leave-exactly-once-per-subtree-node-and-never-outside",
                   "enter-after-parent-with-the-parents-value", "leave-after-all-children-with-exactly-their-values", "returns-the-start-nodes-value",
@@ -541,7 +548,8 @@ def register(R: Registry):
             2: dict(invariant=INV2, modifies=["G"]),
         },
         returns="oref",
-        options=dict(ghost_after=GHOST, hints=hints, asserts_after=ANNOT, modular=True, truth_hook=lambda E, x: truth_of_callback_values(E, x)),
+        options=dict(ghost_after=GHOST, hints=hints, asserts_after=ANNOT, modular=True, truth_hook=lambda E, x: truth_of_callback_values(E, x),
+                     no_recursion=NO_RECURSION, recursion_limit_model=True),
         notes="callbacks are arbitrary (uninterpreted results, recorded by ghost observation arrays); termination of the stack loop is not proved",
     )
 
@@ -552,7 +560,7 @@ def register(R: Registry):
 # contract: the three loops simply execute.  The postconditions are the same clauses of the property, evaluated over the LOG OF THE
 # CALLBACK CALLS ACTUALLY MADE, so they do not rest on any invariant: a change of a loop body that the symbolic-size proof can only
 # report as "invariant no longer provable" (internal obligation, exit 2) shows here as a counter-model of a postcondition.
-NMAX = 4
+NMAX = 5
 
 
 def parent_tables(nmax=NMAX):
@@ -712,7 +720,9 @@ def register_fixed(R):
              "enter-after-parent-with-the-parents-value", "leave-after-all-children-with-exactly-their-values",
              "leave-receives-a-list-of-its-own-at-every-call", "returns-the-start-nodes-value"]
     R.add(f"{BASE}:_traverse_dfs", prop="C04", variants=variants, ensures=[(nm, fixed_post(nm)) for nm in posts],
-          options=dict(truth_hook=truth_of_callback_values),
+          # recursion_limit_model: a call that re-enters an active function may raise RecursionError (unknown stack budget), after exactly
+          # the callback calls made before it: a fallback behind `except RecursionError` then repeats calls in the log
+          options=dict(truth_hook=truth_of_callback_values, recursion_limit_model=True),
           notes=f"every parent table of at most {NMAX} nodes x every start node x which callbacks are given; callbacks arbitrary; loops executed, not cut")
 
 
@@ -777,7 +787,7 @@ def register_wrappers(R):
     for mode, mname in ((None, "mode omitted"), ("dfs", "mode dfs"), ("bfs", "mode bfs"), ("", "mode empty"), ("DFS", "mode DFS")):
         for given in (("enter", "leave", "root"), ("enter",), ("leave", "root"), ()):
             tr_variants[f"{mname}; passes {' '.join(given) or 'nothing'}"] = tr_setup(mode, given)
-    R.add(f"{BASE}:traverse", prop="C04", variants=tr_variants, returns="oref", options=dict(modular=True),
+    R.add(f"{BASE}:traverse", prop="C04", variants=tr_variants, returns="oref", options=dict(modular=True, no_recursion=NO_RECURSION),
           raises={"ValueError": ("any-mode-but-dfs-and-nothing-was-traversed", tr_bad_mode)},
           ensures=[("delegates-once-to-the-iterative-dfs-with-the-same-arguments-and-returns-its-result", tr_post),
                    ("returns-normally-only-in-dfs-mode", lambda E, v, o: True if E.cur_key != f"{BASE}:traverse" else v["mode"] == "dfs")])
@@ -876,7 +886,7 @@ def register_wrappers(R):
                     "enter+leave, start node and mode given": tt_setup(True, True, ("root", "mode"))},
           ghost_exit=tt_exit, returns="oref",
           # the wrapper hands closures to swc_utils.traverse; its contract does not rely on their effects (it probes them itself)
-          options=dict(modular=True, modular_traverse_ok=True),
+          options=dict(modular=True, modular_traverse_ok=True, no_recursion=NO_RECURSION),
           ensures=[("delegates-once-with-the-whole-table-of-this-tree-the-callers-start-node-and-mode-and-returns-the-result", lambda E, v, o: tt_post(E, v, o, True)),
                    ("callbacks-see-handles-of-the-same-nodes-and-values-pass-through-unchanged", tt_post)])
 
@@ -911,7 +921,120 @@ def register_wrappers(R):
 
     R.add(f"{TREE}:Tree.Node.traverse", prop="C04",
           variants={"enter+leave": tn_setup(True, True), "enter-only": tn_setup(True, False), "leave-only": tn_setup(False, True), "enter+leave, mode given": tn_setup(True, True, True)},
+          options=dict(no_recursion=NO_RECURSION),
           ensures=[("traverses-the-owning-tree-starting-at-this-node", tn_post)])
+
+
+# =========================================================================== composition: the three entry points END TO END on small tables
+# "Tree.traverse = _traverse_dfs with Node-wrapped callbacks" (and swc_utils.traverse = _traverse_dfs, Tree.Node.traverse = Tree.traverse
+# from this node) as OBLIGATIONS: a further registration of each entry point on every parent table of at most COMP_NMAX nodes x every
+# start node, with the callees INLINED from the repository (`inline_calls`: nothing is taken from the modular contracts above), arbitrary
+# user callbacks, and the clauses of the property itself (the same `fixed_post` clauses, same names) evaluated over the log of the calls
+# the USER's callbacks received -- for the tree entry points with the node handles read back to node ids, plus the clause that every
+# handle is a handle of this very tree.  Delegation + wrapper transparency (the symbolic-size clauses above) are thereby tied to the
+# property for the whole call chain at these sizes.
+COMP_NMAX = 4
+COMP_INLINE = ["swc_utils/base.py:traverse", "swc_utils/base.py:_traverse_dfs", "core/tree.py:Tree.traverse"]
+
+
+def fixed_tree(S, pid, name="t"):
+    """a Tree whose id / pid columns are the given concrete table (id[i] = i); the other columns symbolic; frozen"""
+    from contracts.common import COLS
+    from pyvc.values import NArr
+    from swcgeom.core.swc_utils import get_names, get_types
+    from swcgeom.core.tree import Tree
+
+    n, cols = len(pid), {}
+    for c, k in COLS.items():
+        its = list(range(n)) if c == "id" else list(pid) if c == "pid" else [S.int(f"{name}_{c}{i}") if k == "int" else S.real(f"{name}_{c}{i}") for i in range(n)]
+        a = NArr((n,), its, k)
+        a.frozen = True
+        cols[c] = a
+    nd = PDict(cols)
+    nd.frozen = True
+    t = S.obj(Tree, ndata=nd, names=get_names(), types=get_types(), source="", comments=PList([]))
+    t.frozen = True
+    return t
+
+
+def comp_setup(entry, pid, root, enter_given, leave_given):
+    def f(S):
+        from pyvc.values import NArr
+
+        n = len(pid)
+        log = Log(pid, root)
+        log.handles_ok = True
+        tree = fixed_tree(S, pid) if entry != "traverse" else None
+
+        def node_of(x):
+            if tree is None:
+                return _node(x)
+            # the tree entry points hand out node handles: read the node id back, and check whose handle it is
+            if not (isinstance(x, Obj) and x.fields.get("attach") is tree):
+                log.handles_ok = False
+                return x
+            return _node(x.fields["idx"])
+
+        def enter_model(E, args, kwargs):
+            v = fresh("oref", "entv")
+            log.events.append(("enter", node_of(args[0]), args[1] if len(args) > 1 else kwargs, v, None, None))
+            return v
+
+        def leave_model(E, args, kwargs):
+            ch = args[1] if len(args) > 1 else None
+            v = fresh("oref", "lefv")
+            items = list(ch.items) if isinstance(ch, PList) and ch.items is not None else None
+            log.events.append(("leave", node_of(args[0]), ch, v, items, getattr(ch, "uid", None)))
+            return v
+
+        cbs = {}
+        if enter_given:
+            cbs["enter"] = Callback("enter", enter_model)
+        if leave_given:
+            cbs["leave"] = Callback("leave", leave_model)
+        shown = dict(enter=cbs.get("enter"), leave=cbs.get("leave"), F=log)  # what the clauses read (`fixed_post`)
+        if entry == "traverse":
+            ids, pids = NArr((n,), list(range(n)), "int"), NArr((n,), list(pid), "int")
+            ids.frozen = pids.frozen = True
+            return dict(topology=(ids, pids), kwargs=PDict(dict(cbs, root=root)), __ghost__=shown)
+        if entry == "Tree.traverse":
+            return dict(self=tree, enter=cbs.get("enter"), leave=cbs.get("leave"), kwargs=PDict(dict(root=root)), __ghost__=shown)
+        from swcgeom.core.tree import Tree
+
+        return dict(self=S.obj(Tree.Node, attach=tree, idx=root, names=tree.fields["names"]), kwargs=PDict(cbs), __ghost__=shown)
+
+    return f
+
+
+def comp_post(which):
+    inner = fixed_post(which) if which != "callbacks-receive-handles-of-this-very-tree" else None
+
+    def f(E, v, o):
+        if "F" not in E.spec_extra:
+            return True  # at a call site of the entry point (another registration's business)
+        vv = dict(v)
+        vv.update(E.spec_extra)  # enter / leave / F as the setup handed them in, whatever the entry point calls its parameters
+        if inner is None:
+            return bool(E.spec_extra["F"].handles_ok)
+        return inner(E, vv, o)
+
+    return f
+
+
+def register_composition(R):
+    posts = ["enter-exactly-once-per-subtree-node-and-never-outside", "leave-exactly-once-per-subtree-node-and-never-outside",
+             "enter-after-parent-with-the-parents-value", "leave-after-all-children-with-exactly-their-values",
+             "leave-receives-a-list-of-its-own-at-every-call", "returns-the-start-nodes-value", "callbacks-receive-handles-of-this-very-tree"]
+    for entry, key in (("traverse", f"{BASE}:traverse"), ("Tree.traverse", f"{TREE}:Tree.traverse"), ("Tree.Node.traverse", f"{TREE}:Tree.Node.traverse")):
+        variants = {}
+        for pid in parent_tables(COMP_NMAX):
+            for root in range(len(pid)):
+                for nm, (e, l) in (("enter+leave", (True, True)), ("enter-only", (True, False)), ("leave-only", (False, True))):
+                    if (e and l) or len(pid) <= 3:  # a missing callback changes nothing in the wrappers: the single-callback runs stop at 3 nodes
+                        variants[f"end to end: table {list(pid)} start {root} {nm}"] = comp_setup(entry, pid, root, e, l)
+        R.add(key, prop="C04", variants=variants, ensures=[(nm, comp_post(nm)) for nm in posts],
+              options=dict(truth_hook=truth_of_callback_values, recursion_limit_model=True, inline_calls=COMP_INLINE, modular_traverse_ok=True),
+              notes=f"end to end on every parent table of at most {COMP_NMAX} nodes: callees inlined, the property's clauses over the calls the user's callbacks received")
 
 
 _reg0 = register
@@ -921,15 +1044,20 @@ def register(R):  # noqa: F811
     _reg0(R)
     register_fixed(R)
     register_wrappers(R)
+    register_composition(R)
 
 
 def lemmas():
-    """call-graph obligation: no function on the traversal path calls itself (directly or through a nested helper),
-    so the interpreter's recursion limit cannot be hit however deep the tree is"""
-    from pyvc import extract
+    """call-graph obligation: no function on the traversal path calls itself (directly, through a helper of the module, mutually, or
+    through a nested closure), so the interpreter's recursion limit cannot be hit however deep the tree is.  Kept under its old name;
+    the per-carrier obligations `<carrier>/safety/no-recursive-call-on-the-traversal-path` (pyvc/callgraph.py) name the cycle."""
+    from pyvc import callgraph, extract
 
     bad = []
     for key in (f"{BASE}:_traverse_dfs", f"{BASE}:traverse", f"{TREE}:Tree.traverse", f"{TREE}:Tree.Node.traverse"):
+        ok, text = callgraph.describe(key, None, NO_RECURSION["receivers"])
+        if not ok:
+            bad.append((key, text))
         node, _, _ = extract.find(key)
         fns = [node] + [x for x in ast.walk(node) if isinstance(x, (ast.FunctionDef, ast.Lambda)) and x is not node]
         for fn in fns:
